@@ -211,6 +211,13 @@ class SymObj(Symbolic):
     def __repr__(self):
         return f"<SymObj {self.label} {sorted(self.f)}>"
 
+    def _copy(self, it):
+        # copy.copy of an instance without __copy__: a new object whose fields refer to the SAME values
+        import inspect
+        if inspect.getattr_static(self.cls, "__copy__", None) is not None:
+            raise OutOfSubset(f"copy.copy of {self.cls.__name__} (defines __copy__)")
+        return SymObj(self.cls, dict(self.f), label=self.label + "~")
+
 
 class BoundMethod:
     def __init__(self, func, self_obj, owner=None):
